@@ -1254,7 +1254,7 @@ int main(int argc, char** argv) {
   e.name = "sim-fs";
   e.run = run;
   e.quick_runs = 160000;
-  e.thorough_runs = 4000000;
+  e.thorough_runs = 20000000;
   e.quick_cap_s = 120;
   e.thorough_cap_s = 1500;
   e.rule =
